@@ -11,8 +11,8 @@ from .. import common, crash, cropfs, tlc
 
 PHASES_Q = [("none", "joblib", "sow"), ("none", "joblib", "grow"), ("none", "joblib", "grow_missing"), ("none", "joblib", "reap"),
             ("harvester", "joblib", "reap"), ("harvester", "h5netcdf", "reap"), ("sampler", "joblib", "reap"),
-            ("harvester", "joblib", "sow"), ("sampler", "csv", "reap"), ("none", "shuffle", "reap")]
-PHASES_T = PHASES_Q + [("runner", "joblib", "reap"), ("harvester", "joblib", "grow_missing_all"), ("sampler", "joblib", "sow"),
+            ("harvester", "joblib", "sow"), ("sampler", "csv", "reap"), ("none", "shuffle", "reap"), ("sampler", "joblib", "sow")]
+PHASES_T = PHASES_Q + [("runner", "joblib", "reap"), ("harvester", "joblib", "grow_missing_all"), ("sampler", "csv", "sow"),
                        ("none", "joblib", "grow_missing_all")]
 
 
